@@ -558,6 +558,15 @@ func (lb *LoadBalancer) IsBackendHealthy(backend *Backend) bool {
 	return isHealthy
 }
 
+// eligible reports whether the backend may be offered traffic at the given instant:
+// it is marked healthy, or the unhealthy window it was ejected for has elapsed
+// (IsBackendHealthy then flips the flag back on the dispatch path).
+func (backend *Backend) eligible(now time.Time) bool {
+	backend.Mutex.RLock()
+	defer backend.Mutex.RUnlock()
+	return backend.IsHealthy || (!backend.UnhealthyUntil.IsZero() && now.After(backend.UnhealthyUntil))
+}
+
 // IncrementConnections increments the active connection count for a backend
 func (backend *Backend) IncrementConnections() {
 	atomic.AddInt32(&backend.ActiveConnections, 1)
